@@ -61,37 +61,7 @@ Proof. intros H1 H2. unfold load_root. rewrite H1, H2. reflexivity. Qed.
 
 
 (* ---------------- C11 ---------------- *)
-Definition C11_statement : Prop :=
-  forall fs L ops,
-    let run := fold_left (fun acc op => let '(s, outs) := acc in
-                                        let '(s', o) := lsys_step L s op in
-                                        (s', outs ++ [(o, fresh_of s L op)]))
-                         ops (mkSys fs [], []) in
-    forall sh fr, In (Some sh, Some fr) (snd run) ->
-      o_res sh = o_res fr /\ o_errs sh = o_errs fr.
-
-(* loading the diamond twice on one loader: the second load returns only the two direct
-   includes and no error *)
-Lemma second_load_truncates :
-  let s0 := mkSys diamond [] in
-  let '(s1, o1) := lsys_step big s0 (OLoad 0) in
-  let '(s2, o2) := lsys_step big s1 (OLoad 0) in
-  option_map (fun o => option_map r_order (o_res o)) o1 = Some (Some [1; 3; 2]) /\
-  option_map (fun o => option_map r_order (o_res o)) o2 = Some (Some [1; 2]) /\
-  option_map o_errs o2 = Some [] /\
-  option_map (fun o => option_map r_order (o_res o)) (fresh_of s1 big (OLoad 0)) = Some (Some [1; 3; 2]).
-Proof. vm_compute. repeat split; reflexivity. Qed.
-
-Lemma C11_refuted : ~ C11_statement.
-Proof.
-  intro H. specialize (H diamond big [OLoad 0; OLoad 0]). cbv zeta in H.
-  match type of H with forall sh fr, In _ (snd ?r) -> _ =>
-    let r' := eval vm_compute in r in change r with r' in H end.
-  cbn [snd] in H.
-  match type of H with forall sh fr, In _ [_; (Some ?a, Some ?b)] -> _ =>
-    specialize (H a b (or_intror (or_introl eq_refl))) end.
-  destruct H as [H _]. vm_compute in H. discriminate H.
-Qed.
+(* the full statement and its proof are in Proofs/LoaderHistory.v *)
 
 (* after ClearCache the next load is a fresh load, in every state *)
 Lemma clear_then_load_is_fresh L s root :
